@@ -193,6 +193,7 @@ impl Exec {
             "bbs" => guard(|| bbs(&ctx.board)),
             "gen" => guard(|| gen(ctx)),
             "genl" => guard(|| genl(ctx)),
+            "genlx" => guard(|| genlx(ctx)),
             "att" => guard(|| att(ctx)),
             "verdict" => {
                 let r = guard(|| verdict(ctx, false));
@@ -1235,6 +1236,28 @@ fn searches(e: &mut Exec, rng: &mut Rng, kv: &Args, positions: &[(String, Pos)])
             e.exec(&format!("{} {}", sop, n));
             e.exec("snap");
         }
+        if kv.num("sides", 0) == 1 {
+            // one context asked about the same placement with either side to move (a game that loses a tempo)
+            let d = *depths.iter().max().unwrap();
+            let mut q = p.clone();
+            q.ep = None;
+            q.turn = p.turn.opposite();
+            // only when the flipped position is consistent: the side that would not be to move is not in check
+            let kq = (0..64).find(|&i| q.cells[i] == Some((Piece::King, q.turn.opposite())));
+            if kq.map(|k| !attacked(&q.cells, k, q.turn)).unwrap_or(false) {
+                e.exec(&format!("sctx {}", d));
+                let mut first = p.clone();
+                first.ep = None;
+                for pos in [&first, &q, &first] {
+                    e.exec(&format!("pos {}", pos.line()));
+                    let n = pools[rng.below(pools.len())];
+                    e.exec(&format!("search {}", n));
+                    e.exec("snap");
+                    e.tally("searches-same-context-other-side");
+                }
+                e.exec(&format!("pos {}", p.line()));
+            }
+        }
         if kv.num("clocks", 0) == 1 {
             // one context reused for the same placement at different half-move clocks (a game that
             // shuffles back into a position it has searched before, closer to the move-count draw)
@@ -1515,6 +1538,38 @@ fn pvp_games(e: &mut Exec, rng: &mut Rng, count: usize, shard: usize, shards: us
         e.exec(&format!("pvp {}", inputs.join("|")));
         e.tally("pvp-scripts");
     }
+}
+
+/// positions in which forced mates of different lengths lie inside a 6-ply horizon: a lone king
+/// against two heavy pieces (either colour attacking), mostly with the defender to move
+fn mating_net_positions(rng: &mut Rng, count: usize) -> Vec<(String, Pos)> {
+    let mut v = vec![];
+    let mut tries = 0;
+    while v.len() < count && tries < 10000 {
+        tries += 1;
+        let mut p = Pos::empty();
+        let att = if rng.chance(1, 2) { Color::White } else { Color::Black };
+        let def = att.opposite();
+        let (ak, dk) = (rng.below(64), rng.below(64));
+        if ak == dk {
+            continue;
+        }
+        p.cells[ak] = Some((Piece::King, att));
+        p.cells[dk] = Some((Piece::King, def));
+        for _ in 0..2 {
+            let sq = rng.below(64);
+            let pc = if rng.chance(1, 3) { Piece::Queen } else { Piece::Rook };
+            put_if_empty(&mut p, sq, pc, att);
+        }
+        p.turn = if rng.chance(7, 10) { def } else { att };
+        if let Some(q) = finish_setup(p, None, rng) {
+            let mut q = q;
+            q.ep = None;
+            q.half = 0;
+            v.push((format!("net-{}", v.len()), q));
+        }
+    }
+    v
 }
 
 fn walk_positions(rng: &mut Rng, corpus: &[(String, Pos)], count: usize, max_pieces: usize) -> Vec<(String, Pos)> {
@@ -2009,6 +2064,10 @@ pub fn run(kv: &Args) {
             }
             let corpus = corpus_subset(kv);
             positions.extend(walk_positions(&mut rng, &corpus, extra, maxp));
+            let nets = kv.num("nets", 0) as usize;
+            if nets > 0 {
+                positions = mating_net_positions(&mut rng, nets);
+            }
             if family != "engine" {
                 positions = positions.into_iter().enumerate().filter(|(i, _)| i % shards == shard).map(|(_, p)| p).collect();
             }
